@@ -1198,6 +1198,38 @@ def shape_blocks():
         cc = {"k": "concat", "args": [sig("i%d_%d" % (pw, j % 2), pw) for j, pw in enumerate(parts)]}
         add(tw, cc)
         add(1, {"k": "reduce", "op": "xor", "a": cc})          # a context that accepts any width
+    # a comparison result (1 bit, explicitly sized) as an operand of a wider explicitly sized value, on
+    # either side of arithmetic / bitwise / comparison operators: always a mismatch
+    # (seeded change C10-C: a vector of any width compared equal to Bool when it was the LEFT operand type)
+    for w in (2, 8, 33):
+        a = sig("i%d_0" % w, w)
+        lt = cmp_("<", a, num(1))
+        for op in ("&", "+", "^"):
+            add(w, bo(op, a, lt))
+            add(w, bo(op, lt, a))
+        for op in ("==", ">"):
+            add(1, cmp_(op, a, lt))
+            add(1, cmp_(op, lt, a))
+        add(w, bo("|", a, cmp_("==", c1, num(1))))
+        add(1, bo("&", c1, lt))                       # Bits1 with a comparison: fine
+    # temporaries assigned more than once: a literal first and an explicitly sized signal of the literal's
+    # inferred width later (in a branch), and the other way round, then used at the same / another width
+    # (seeded change C10-D: the explicit / inferred flag of a temporary was recorded by its first assignment only)
+    def tdef(name, v):
+        return {"k": "assign", "t": {"k": "tmpdef", "name": name}, "v": v}
+
+    def use(tw, v):
+        return {"k": "assign", "t": sig("o%d_0" % tw, tw), "v": v}
+    x = {"k": "tmp", "name": "x"}
+    for w, litv in ((2, 3), (2, 2), (8, 200)):
+        a = sig("i%d_0" % w, w)
+        for first, second in ((num(litv), a), (a, num(litv))):
+            for branch in (True, False):
+                re_ = [{"k": "if", "c": c1, "body": [tdef("x", second)], "orelse": []}] if branch else [tdef("x", second)]
+                for tw_use, mk in ((w, lambda: x), (33 if w != 33 else 8, lambda: x),
+                                   (33 if w != 33 else 8, lambda: bo("+", sig("i%d_1" % (33 if w != 33 else 8), 33 if w != 33 else 8), x)),
+                                   (1, lambda: cmp_("==", sig("i%d_1" % (33 if w != 33 else 8), 33 if w != 33 else 8), x))):
+                    out.append(Block("Sh%d" % len(out), [tdef("x", first)] + re_ + [use(tw_use, mk())], tag="shape"))
     # unary operators on comparisons of ints
     add(1, {"k": "unop", "op": "~", "a": cmp_("==", num(1), num(1))})
     add(1, bo("&", c1, {"k": "unop", "op": "~", "a": cmp_("==", lv, num(0))}), loop=2)
